@@ -1,0 +1,7 @@
+//go:build !verif
+
+package xmss
+
+// verifLeafSeam is the shipped (guard off) side of the verification leaf seam:
+// it never intercepts, so genLeafWOTS always runs the real code.
+func verifLeafSeam(leaf []uint8, lTreeAddr, otsAddr *[8]uint32) bool { return false }
